@@ -22,6 +22,8 @@ import (
 	phttp "github.com/yandex/pandora/components/guns/http"
 	"github.com/yandex/pandora/core/aggregator/netsample"
 	"github.com/yandex/pandora/zverif/hutil"
+	"context"
+	"github.com/yandex/pandora/core"
 )
 
 const okAnswer = "HTTP/1.1 200 OK\r\nContent-Length: 2\r\n\r\nok"
@@ -98,6 +100,23 @@ type wireCell struct {
 
 func (c wireCell) Name() string {
 	return fmt.Sprintf("wire|dev=%s|proxy=%v|pos=%d|gun=%s|ssl=%v|nokeep=%v|answlog=%v|debug=%v|trace=%v", c.Dev, c.Proxy, c.Pos, c.Gun, c.SSL, c.NoKeep, c.AnswLog, c.DebugLog, c.Trace)
+}
+
+// poolAgg does what the phout aggregator does with a sample: it takes what it needs and gives the sample
+// back to the pool, so that the next request gets a re-used sample (which must come back clean).
+type sampleCodes struct {
+	proto, net int
+	err        error
+}
+
+func (s sampleCodes) Err() error { return s.err }
+
+type poolAgg struct{ samples []sampleCodes }
+
+func (a *poolAgg) Run(ctx context.Context, _ core.AggregatorDeps) error { <-ctx.Done(); return nil }
+func (a *poolAgg) Report(s *netsample.Sample) {
+	a.samples = append(a.samples, sampleCodes{proto: s.ProtoCode(), net: netsample.ZvErrno(s), err: s.Err()})
+	netsample.ZvRelease(s)
 }
 
 type wireServer struct {
@@ -251,7 +270,7 @@ func runWireCell(c wireCell) (verr error) {
 	if c.Gun == "connect" {
 		g = phttp.NewConnectGun(gconf, answLog)
 	}
-	a := &recAgg{}
+	a := &poolAgg{}
 	if err := g.Bind(a, gunDeps(0)); err != nil {
 		return fmt.Errorf("HARNESS: bind: %v", err)
 	}
@@ -295,36 +314,36 @@ func runWireCell(c wireCell) (verr error) {
 		}
 	}
 	for i, s := range a.samples {
-		netc := netsample.ZvErrno(s)
-		failed := s.Err() != nil || netc != 0
+		netc := s.net
+		failed := s.err != nil || netc != 0
 		if i != affected {
-			if s.ProtoCode() != 200 || failed {
-				return fmt.Errorf("OTHER: request %d (%s) was answered 200 but is reported as code %d net %d err %v; the deviating answer belongs to request %d", i, paths[i], s.ProtoCode(), netc, s.Err(), affected)
+			if s.proto != 200 || failed {
+				return fmt.Errorf("OTHER: request %d (%s) was answered 200 but is reported as code %d net %d err %v; the deviating answer belongs to request %d", i, paths[i], s.proto, netc, s.err, affected)
 			}
 			continue
 		}
 		switch {
 		case dev.Either:
-			if !failed && s.ProtoCode() == 200 {
+			if !failed && s.proto == 200 {
 				return fmt.Errorf("SAMPLE: answer %q reported as a plain 200", dev.Bytes)
 			}
 		case dev.Failure && dev.Status == 0:
 			if !failed {
-				return fmt.Errorf("SAMPLE: answer %q (no usable response) reported without a failure: code %d net %d err %v", dev.Bytes, s.ProtoCode(), netc, s.Err())
+				return fmt.Errorf("SAMPLE: answer %q (no usable response) reported without a failure: code %d net %d err %v", dev.Bytes, s.proto, netc, s.err)
 			}
-			if s.ProtoCode() != 0 {
-				return fmt.Errorf("SAMPLE: answer %q (no usable response) reported with protocol code %d", dev.Bytes, s.ProtoCode())
+			if s.proto != 0 {
+				return fmt.Errorf("SAMPLE: answer %q (no usable response) reported with protocol code %d", dev.Bytes, s.proto)
 			}
 		case dev.Failure:
 			if !failed {
 				return fmt.Errorf("SAMPLE: answer %q (status %d, body breaks) reported without a failure", dev.Bytes, dev.Status)
 			}
-			if s.ProtoCode() != dev.Status {
-				return fmt.Errorf("SAMPLE: answer %q reported with protocol code %d, the status received is %d", dev.Bytes, s.ProtoCode(), dev.Status)
+			if s.proto != dev.Status {
+				return fmt.Errorf("SAMPLE: answer %q reported with protocol code %d, the status received is %d", dev.Bytes, s.proto, dev.Status)
 			}
 		default:
-			if s.ProtoCode() != dev.Status || failed {
-				return fmt.Errorf("SAMPLE: answer %.80q reported as code %d net %d err %v, the status received is %d", dev.Bytes, s.ProtoCode(), netc, s.Err(), dev.Status)
+			if s.proto != dev.Status || failed {
+				return fmt.Errorf("SAMPLE: answer %.80q reported as code %d net %d err %v, the status received is %d", dev.Bytes, s.proto, netc, s.err, dev.Status)
 			}
 		}
 	}
